@@ -31,9 +31,10 @@ def stamp(t):
 
 
 class TaskSpec:
-    def __init__(self, uid, occ, max_simul=None, dur=0, owner=None, use_rdate=False, dur_form=None):
+    def __init__(self, uid, occ, max_simul=None, dur=0, owner=None, use_rdate=False, dur_form=None, allday=False):
         self.uid, self.occ, self.max_simul, self.dur, self.owner, self.use_rdate = uid, occ, max_simul, dur, owner, use_rdate
         self.dur_form = dur_form      # how the limit is spelled: None = PTnS, "iso" = mixed W/D/H/M/S, "dtend" = DTEND
+        self.allday = allday          # DATE values: the occurrences (midnights, UTC) are written as days
 
     def dur_lines(self):
         s = self.dur // 1000
@@ -52,6 +53,20 @@ class TaskSpec:
         return ["DURATION:PT%dS" % s]
 
     def ical_event(self):
+        if self.allday:
+            day = lambda x: (EPOCH + datetime.timedelta(seconds=x)).strftime("%Y%m%d")
+            l = ["BEGIN:VEVENT", "UID:%s" % self.uid, "SUMMARY:echo %s" % self.uid, "DTSTART;VALUE=DATE:%s" % day(self.occ[0])]
+            if len(self.occ) > 1 or self.use_rdate:
+                if self.use_rdate or any(b - a != 86400 for a, b in zip(self.occ, self.occ[1:])):
+                    l.append("RDATE;VALUE=DATE:" + ",".join(day(x) for x in self.occ))
+                else:
+                    l.append("RRULE:FREQ=DAILY;COUNT=%d" % len(self.occ))
+            if self.max_simul is not None:
+                l.append("X-ECHS-MAX-SIMUL:%d" % self.max_simul)
+            if self.owner is not None:
+                l.append("X-ECHS-OWNER:%d" % self.owner)
+            l.append("END:VEVENT")
+            return l
         l = ["BEGIN:VEVENT", "UID:%s" % self.uid, "SUMMARY:echo %s" % self.uid, "DTSTART:%s" % stamp(self.occ[0])]
         if len(self.occ) > 1:
             step = self.occ[1] - self.occ[0]
@@ -333,6 +348,17 @@ def gen_history(rng, knobs):
                                           dur_form=rng.choice(knobs.get("dur_forms", [None]))))
             op, its = request(peer, items, knobs.get("wire") if rng.random() < knobs.get("p_wire", 0.5) else None)
             ops.append(op); acts.append(("A", peer, its))
+        elif r < 0.62 and knobs.get("allday", False) and rng.random() < 0.12:
+            # a task of whole days (DATE values, due at midnight UTC), then the clock goes to about the next midnight
+            day0 = now - now % 86400
+            ks = sorted(set(rng.sample(range(0, 4), rng.randint(1, 3))))
+            peer = rng.choice(pool)
+            op, its = request(peer, [TaskSpec(rng.choice(uids), [day0 + k * 86400 for k in ks], rng.choice([None, 1]), 0, None,
+                                              use_rdate=rng.random() < 0.5, allday=True)])
+            ops.append(op); acts.append(("A", peer, its))
+            now = day0 + 86400 + rng.choice([-3, -1, 0, 0, 1, 2, 7])
+            ops.append("T %d" % now); acts.append(("T", now))
+            spawned += 3
         elif r < 0.62:
             now += rng.choice([1, 1, 2, 3, 5, 11, 30])
             ops.append("T %d" % now); acts.append(("T", now))
@@ -531,7 +557,10 @@ def run_checks(ctx, prop, knobs, n_quick, n_thorough, rule, me_choices=(0,)):
                 mine.append((i, why))
             else:
                 others[p] += 1
-    corr = common.diff_lines(lines, impl, model)
+    # the table dump shows a task's current occurrence as an instant: whole-day occurrences come as DATE values, the model
+    # has them as midnights
+    canon = lambda s: re.sub(r"(:[0-9a-f]{8})ff000000:", r"\g<1>000003ff:", s)
+    corr = common.diff_lines(lines, [canon(x) for x in impl], model)
     opcount = collections.Counter(a[0] for _, _, acts in cases for a in acts)
     ctx.cov.update({
         "evaluations": len(lines),
